@@ -1093,41 +1093,44 @@ theorem impliedCase_reports (root : Entry) (p : Path) (e x : Entry) (k : String)
 
 /-! ### forests -/
 
+theorem find?_key_map (l : List (Nat × Entry)) (g : Nat × Entry → Nat × Entry) (hg : ∀ x, (g x).1 = x.1)
+    (id : Nat) : (l.map g).find? (·.1 == id) = (l.find? (·.1 == id)).map g := by
+  rw [List.find?_map]
+  have : ((fun x : Nat × Entry => x.1 == id) ∘ g) = (fun x : Nat × Entry => x.1 == id) := by
+    funext x; simp [Function.comp, hg]
+  rw [this]
+
 theorem tree?_setTree (f : Forest) (t id : Nat) (e : Entry) :
     (f.setTree t e).tree? id = if id = t then (f.tree? t).map (fun _ => e) else f.tree? id := by
   unfold Forest.setTree Forest.tree?
   simp only
-  induction f.trees with
-  | nil => simp
-  | cons x xs ih =>
-    obtain ⟨i, tr⟩ := x
-    simp only [List.map_cons, List.find?_cons]
-    by_cases hi : i = t
-    · subst hi
-      by_cases hid : id = i
-      · subst hid; simp
-      · have h1 : (i == id) = false := by simp [Ne.symm hid]
-        simp only [beq_self_eq_true, if_true, h1, hid, if_false] at ih ⊢
-        exact ih
-    · have h0 : (i == t) = false := by simp [hi]
-      simp only [h0, Bool.false_eq_true, if_false]
-      by_cases hid : id = t
-      · subst hid
-        have h1 : (i == id) = false := by simp [hi]
-        simp only [h1, if_true] at ih ⊢
-        exact ih
-      · simp only [hid, if_false] at ih ⊢
-        cases hii : (i == id) <;> simp [ih]
+  rw [find?_key_map _ _ (by intro x; obtain ⟨i, tr⟩ := x; simp only; split <;> rfl)]
+  by_cases hid : id = t
+  · subst hid
+    simp only [if_true]
+    cases hf : f.trees.find? (·.1 == id) with
+    | none => rfl
+    | some x =>
+      have : (x.1 == id) = true := List.find?_some (p := fun x : Nat × Entry => x.1 == id) hf
+      obtain ⟨i, tr⟩ := x
+      simp only [beq_iff_eq] at this
+      subst this
+      simp
+  · simp only [hid, if_false]
+    cases hf : f.trees.find? (·.1 == id) with
+    | none => rfl
+    | some x =>
+      have : (x.1 == id) = true := List.find?_some (p := fun x : Nat × Entry => x.1 == id) hf
+      obtain ⟨i, tr⟩ := x
+      simp only [beq_iff_eq] at this
+      subst this
+      simp [hid]
 
 theorem tree?_fixAll (f : Forest) (id : Nat) : (fixAll f).tree? id = (f.tree? id).map fixChoice := by
   unfold fixAll Forest.tree?
   simp only
-  induction f.trees with
-  | nil => simp
-  | cons x xs ih =>
-    obtain ⟨i, tr⟩ := x
-    simp only [List.map_cons, List.find?_cons]
-    cases hii : (i == id) <;> simp [ih]
+  rw [find?_key_map _ _ (by intro x; rfl)]
+  cases f.trees.find? (·.1 == id) <;> rfl
 
 /-- The namespace of a location, given its tree. -/
 def nsOfTree (reg : Registry) (id : Nat) (root : Entry) (p : Path) : String :=
@@ -1139,6 +1142,7 @@ theorem namespaceAt_tree (reg : Registry) (f : Forest) (loc : Loc) (root : Entry
     namespaceAt reg f loc = nsOfTree reg loc.1 root loc.2 := by
   rw [namespaceAt_eq_spec]; unfold namespaceOf nsOfTree
   simp only [h, stampAt_eq]
+  cases deepestGraft (stampsAlong root loc.2) <;> rfl
 
 /-! ### provenance: the namespace is that of the placing module -/
 
@@ -1197,5 +1201,86 @@ theorem built_namespace {reg : Registry} {f : Forest} {prov : Loc → Option Nat
       rw [← this]; unfold nsOfTree
       rw [← hroot', hlp, stampAt_fix]
     · rw [hnone loc hex] at hp; cases hp
+
+/-! ### instantiating module -/
+
+/-- The namespace a module declares. -/
+def nsOfMod (m : Mod) : String := (m.stmt.argOf? "namespace").getD ""
+
+/-- `InstantiatingModule()` answers `n` exactly when some loaded module with the node's
+namespace is called `n` and every loaded module with that namespace is called `n` (several
+revisions of one module are one module). -/
+theorem instantiatingModuleAt_eq_some_iff (reg : Registry) (f : Forest) (loc : Loc) (n : String) :
+    instantiatingModuleAt reg f loc = some n ↔
+      (∃ m ∈ reg.distinctModules, nsOfMod m = namespaceAt reg f loc ∧ m.name = n) ∧
+      (∀ m ∈ reg.distinctModules, nsOfMod m = namespaceAt reg f loc → m.name = n) := by
+  unfold instantiatingModuleAt
+  simp only
+  have hmem : ∀ m, m ∈ reg.distinctModules.filter (fun m => (m.stmt.argOf? "namespace").getD "" == namespaceAt reg f loc) ↔
+      m ∈ reg.distinctModules ∧ nsOfMod m = namespaceAt reg f loc := by
+    intro m; simp [List.mem_filter, nsOfMod]
+  generalize reg.distinctModules.filter (fun m => (m.stmt.argOf? "namespace").getD "" == namespaceAt reg f loc) = l at hmem
+  cases l with
+  | nil =>
+    constructor
+    · intro h; cases h
+    · rintro ⟨⟨m, hm, hns, _⟩, _⟩
+      exact absurd ((hmem m).mpr ⟨hm, hns⟩) (by simp)
+  | cons m0 rest =>
+    simp only
+    constructor
+    · intro h
+      split at h
+      · rename_i hall
+        simp only [Option.some.injEq] at h
+        have h0 := (hmem m0).mp (by simp)
+        refine ⟨⟨m0, h0.1, h0.2, h⟩, ?_⟩
+        intro m hm hns
+        have := (hmem m).mpr ⟨hm, hns⟩
+        rcases List.mem_cons.mp this with rfl | hr
+        · exact h
+        · have := List.all_eq_true.mp hall m hr
+          simp only [beq_iff_eq] at this
+          rw [this, h]
+      · cases h
+    · rintro ⟨_, hall⟩
+      have h0 := (hmem m0).mp (by simp)
+      have hn0 := hall m0 h0.1 h0.2
+      have : rest.all (fun x => x.name == m0.name) = true := by
+        rw [List.all_eq_true]
+        intro x hx
+        have hx' := (hmem x).mp (List.mem_cons_of_mem _ hx)
+        simp [hall x hx'.1 hx'.2, hn0]
+      rw [if_pos this, hn0]
+
+/-- … and it fails exactly when no loaded module declares the namespace or two with different
+names do. -/
+theorem instantiatingModuleAt_eq_none_iff (reg : Registry) (f : Forest) (loc : Loc) :
+    instantiatingModuleAt reg f loc = none ↔
+      (¬ ∃ m ∈ reg.distinctModules, nsOfMod m = namespaceAt reg f loc) ∨
+      (∃ m ∈ reg.distinctModules, ∃ m' ∈ reg.distinctModules,
+        nsOfMod m = namespaceAt reg f loc ∧ nsOfMod m' = namespaceAt reg f loc ∧ m.name ≠ m'.name) := by
+  constructor
+  · intro h
+    by_cases hex : ∃ m ∈ reg.distinctModules, nsOfMod m = namespaceAt reg f loc
+    · right
+      obtain ⟨m, hm, hns⟩ := hex
+      by_cases hall : ∀ m' ∈ reg.distinctModules, nsOfMod m' = namespaceAt reg f loc → m'.name = m.name
+      · have := (instantiatingModuleAt_eq_some_iff reg f loc m.name).mpr ⟨⟨m, hm, hns, rfl⟩, hall⟩
+        rw [h] at this; cases this
+      · have : ∃ m' ∈ reg.distinctModules, nsOfMod m' = namespaceAt reg f loc ∧ m'.name ≠ m.name :=
+          Classical.byContradiction fun hno => hall fun m' hm' hns' =>
+            Classical.byContradiction fun hne => hno ⟨m', hm', hns', hne⟩
+        obtain ⟨m', hm', hns', hne⟩ := this
+        exact ⟨m, hm, m', hm', hns, hns', fun e => hne e.symm⟩
+    · exact Or.inl hex
+  · intro h
+    cases hr : instantiatingModuleAt reg f loc with
+    | none => rfl
+    | some n =>
+      obtain ⟨⟨m0, hm0, hns0, _⟩, hall⟩ := (instantiatingModuleAt_eq_some_iff reg f loc n).mp hr
+      rcases h with h | ⟨m, hm, m', hm', hns, hns', hne⟩
+      · exact absurd ⟨m0, hm0, hns0⟩ h
+      · exact absurd ((hall m hm hns).trans (hall m' hm' hns').symm) hne
 
 end Goyang.Lemmas.ConfigNs
